@@ -11,9 +11,10 @@
    clause is violated the rest of that history (until the next Init) is not judged.
 
    Named deviation (counted in `dev`, never hidden): UnionBoundaryDaughterCrossFails
-   (finding F-NAV-2) -- cross_boundary reports failure in a geometry that contains a
-   daughter universe whose boundary is a union (World.union_boundary, detected from the
-   input by the oracle).  A failed crossing anywhere else is C03.CrossFailed. *)
+   (finding F-NAV-2) -- cross_boundary reports failure, or find_next_step stops at an internal
+   surface of the union, in a geometry that contains a daughter universe whose boundary is a
+   union (World.union_boundary, detected from the input by the oracle).  A failed crossing or
+   an invented boundary anywhere else is C03.CrossFailed / C03.NoInventedBoundary. *)
 EXTENDS Integers, Sequences, FiniteSets, TLC, Json, IOUtils
 
 TraceLog == ndJsonDeserialize(IOEnv.TRACE)
@@ -90,7 +91,11 @@ TFind ==
   /\ LET cl == IF Rec.dcls = "tiny" THEN {}
                ELSE FindClauses(Rec) \cup (IF Rec.e = "FindMax" THEN TruncClauses(Rec) ELSE {})
                     \cup StateClauses(Rec, ph)
-     IN /\ Judge(cl, {}, Rec.e, NumU(Rec))
+         \* in a geometry with a union-bounded daughter (F-NAV-2) the navigator also stops at the
+         \* internal surfaces of that union: same feature, same named deviation, counted
+         inv == ub /\ Rec.b /\ Rec.dcls = "pos" /\ Rec.f_rev = "F" /\ Rec.f_change = "F"
+         cl2 == IF inv THEN cl \ {"C03.NoInventedBoundary"} ELSE cl
+     IN /\ Judge(cl2, IF inv THEN {"UnionBoundaryDaughterCrossFails"} ELSE {}, Rec.e, NumU(Rec))
         /\ ok' = (ok /\ cl = {} /\ Rec.dcls # "tiny")
   /\ has' = (Rec.dcls \in {"pos", "tiny"}) /\ nb' = (Rec.b /\ Rec.dcls \in {"pos", "tiny"})
   /\ ph' = IF Rec.dcls = "inf" THEN "O" ELSE ph
